@@ -180,7 +180,7 @@ class HistoryStream(Stream):
     def cases(self, ctx):
         rng = ctx.rng_for("history")
         out = []
-        for i in range(ctx.scale(200, 3000)):
+        for i in range(ctx.scale(200, 2000)):
             r = rng.fork(str(i))
             out.append(gen_history_case(r) if r.chance(75) else gen_generic_history_case(r))
         return out
@@ -404,7 +404,7 @@ class PurityStream(Stream):
     def cases(self, ctx):
         rng = ctx.rng_for("purity")
         out = []
-        for i in range(ctx.scale(400, 8000)):
+        for i in range(ctx.scale(400, 5000)):
             r = rng.fork(str(i))
             g = gen_program(r)
             # shared sub-objects: aliasing makes an in-place edit visible in two places
